@@ -3,6 +3,7 @@
 import Gojq.Model.Optimize
 import Gojq.Model.OptVM
 import Gojq.Model.SafeVM
+import Gojq.Model.TailVM
 import Driver.Common
 open Gojq.Opt
 
@@ -43,6 +44,33 @@ def runSafe (line : String) : String :=
     if Gojq.SafeVM.safeCheckView is.toArray then "safe"
     else "not-safe pc=" ++ toString (Gojq.SafeVM.firstBad (is.toArray.map Gojq.SafeVM.shapeV) 0)
 
+/-- the dump with the `[id, index]` operand of the variable instructions kept (`TailVM.viewT`) -/
+def parseInstrT (tok : String) : Option Instr :=
+  match tok.splitOn "|" with
+  | [op, tgt, arg] => some { op := op, tgt := if tgt == "_" then none else tgt.toInt?, arg := arg,
+                             ints := if op == "scope" || op == "load" || op == "store" || op == "append" ||
+                                        op == "forklabel" then parseInts arg else [] }
+  | _ => none
+
+/-- stream `tailwf`: the static hypotheses of `optimizeTailRec_preserves_outputs_partial`
+    (Props/C04Tail.lean) on dumped codes (`…View`, proved equal to the scans on interpreter code through
+    the dump `viewT`).  `B <code before the pass>` -> `shape-ok` / `not-shape-ok`, then `closure-free` /
+    `closures`; `A <code after the pass>` -> `jumps-only` / `has-callrec` -/
+def runTailWf (line : String) : String :=
+  let toks := (line.splitOn " ").filter (· ≠ "")
+  match toks with
+  | "B" :: rest =>
+    match rest.mapM parseInstrT with
+    | none => "?parse"
+    | some is =>
+      (if Gojq.TailVM.tailShapeCheckView is.toArray then "shape-ok" else "not-shape-ok") ++ " " ++
+      (if Gojq.TailVM.closureFreeView is.toArray then "closure-free" else "closures")
+  | "A" :: rest =>
+    match rest.mapM parseInstrT with
+    | none => "?parse"
+    | some is => if Gojq.TailVM.noCallrecView is.toArray then "jumps-only" else "has-callrec"
+  | _ => "?parse"
+
 def main (args : List String) : IO UInt32 :=
   Driver.main [("codeops", runPass optimizeCodeOps), ("tailrec", runPass optimizeTailRec), ("wf", runWf),
-    ("safe", runSafe)] args
+    ("safe", runSafe), ("tailwf", runTailWf)] args
